@@ -44,6 +44,14 @@ def check(prop, tier, cap, only=None, procs=None, list_only=False, t0=None):
             fobs = [o for o in fobs if fnmatch.fnmatchcase(o[0], only)]
         results += common.run_pool("harness.p_c02", fobs, tier, cap, procs=procs)
     if prop == "C10":
+        # Boolean-valued floating-point operations on concrete operands fold to the literal every truth check reports
+        from . import p_c02
+
+        tobs = p_c02.truth_obligations(tier)
+        if only:
+            tobs = [o for o in tobs if fnmatch.fnmatchcase(o[0], only)]
+        results += common.run_pool("harness.p_c02", tobs, tier, cap, procs=procs)
+    if prop == "C10":
         # a solver's is_true / is_false over query histories (memoised answers): the history harness on the oracle backend
         from . import p_solvers
 
